@@ -3,8 +3,10 @@
 (*                                                                                    *)
 (* One HTTP/1.x client connection on which a sequence of requests is pipelined (all   *)
 (* bytes sent at once).  Request classes:                                             *)
-(*   get, head, post (Content-Length body), chunked (chunked body) - bodies contain   *)
-(*     the text of a complete request "GET /smuggled ..." ;                           *)
+(*   "<METHOD>:<framing>" for GET, HEAD, POST, OPTIONS, DELETE x no body /            *)
+(*     Content-Length body / chunked body (RFC 7230 3.3: the presence of a body is    *)
+(*     signalled by the framing fields, whatever the method) - bodies contain the     *)
+(*     text of a complete request "GET /smuggled ..." ;                               *)
 (*   early / earlybig: POST whose backend answers without reading the body and resets *)
 (*     (3 kB / 300 kB body: below / above the 256 KiB the server is willing to skip); *)
 (*   expect: Expect: 100-continue with body; expectearly: same, backend answers early *)
@@ -24,13 +26,17 @@ EXTENDS Integers, Sequences, FiniteSets, TLC
 CONSTANTS MaxReqs,        \* requests pipelined on the connection
           Classes         \* request classes to use
 
-AllClasses == {"get", "head", "post", "chunked", "early", "earlybig", "expect", "expectearly",
+\* every method with every body framing: "<METHOD>:<none|cl|chunked>"
+Methods  == {"GET", "HEAD", "POST", "OPTIONS", "DELETE"}
+Framings == {"none", "cl", "chunked"}
+MF == {m \o ":" \o f : m \in Methods, f \in Framings}
+AllClasses == MF \cup {"early", "earlybig", "expect", "expectearly",
                "expect0", "expectbad", "bad", "oversize", "http10", "close"}
 ASSUME Classes \subseteq AllClasses
 
 (* ------------------------------ Layer P --------------------------------- *)
 EndsPersistence(c) == c \in {"expect0", "expectbad", "bad", "oversize", "http10", "close"}
-Normal(c)  == c \in {"get", "head", "post", "chunked", "expect", "http10", "close"}   \* answered by the backend
+Normal(c)  == c \in MF \cup {"expect", "http10", "close"}   \* answered by the backend
 Interim(c) == c \in {"expect", "expectearly"}
 AnyS == 0
 Statuses(c) == CASE Normal(c) -> {200}
@@ -72,7 +78,7 @@ InterimM(c) == IF c = "expect" THEN {1} ELSE IF c = "expectearly" THEN {0, 1} EL
 \* (earlybig: whether more than 256 KiB of the body are still unread when the response is written
 \*  depends on how far the transport got: both outcomes occur)
 ContinueM(c) == IF EarlyC(c) THEN BOOLEAN
-                ELSE {c \in {"get", "head", "post", "chunked", "expect"}}
+                ELSE {c \in MF \cup {"expect"}}
 
 Serve == /\ ~closed /\ i <= Len(cs)
          /\ \E st \in StatusM(cs[i]), im \in InterimM(cs[i]) :
